@@ -35,7 +35,17 @@ fn main() {
         }
         let mut toks = cases::Toks::new(line);
         let kind = toks.word().to_string();
+        // the `clip` kind drives the construction through hooks: record the decisions, so that a panic can be classified
+        // (was the exact predicate consulted?) the same way as for whole tessellations
+        if kind == "clip" {
+            meshless_voronoi::verif_hooks::trace_start();
+        }
         let res = catch_unwind(AssertUnwindSafe(|| cases::run_case(&kind, &mut toks)));
+        let exact_decisions = if kind == "clip" {
+            Some(meshless_voronoi::verif_hooks::trace_take().iter().filter(|d| d.exact_args.is_some()).count())
+        } else {
+            None
+        };
         let body = match res {
             Ok(s) => s,
             Err(e) => {
@@ -46,7 +56,10 @@ fn main() {
                 } else {
                     "panic".to_string()
                 };
-                format!("\"panic\":{}", json::string(&msg))
+                match exact_decisions {
+                    Some(n) => format!("\"panic\":{},\"trace\":{{\"exact\":{}}}", json::string(&msg), n),
+                    None => format!("\"panic\":{}", json::string(&msg)),
+                }
             }
         };
         writeln!(out, "{{\"line\":{},\"kind\":{},{}}}", lineno, json::string(&kind), body).unwrap();
